@@ -38,6 +38,10 @@ func init() {
 		Explanation: "wip"}
 	props["C13"] = &PropSpec{ID: "C13", Engines: []string{"UNSAT"}, Rules: []string{"UNSAT"},
 		Explanation: "wip"}
+	props["C16"] = &PropSpec{ID: "C16", Engines: []string{"OPTS"}, Rules: []string{"LOWER", "OPTORDER", "NILOPT", "REFLVALID"},
+		Explanation: "wip"}
+	props["C14"] = &PropSpec{ID: "C14", Engines: []string{"OPTS", "ERRPRED"}, Rules: []string{"LOWER", "ERRPRED", "REFLVALID", "TAGS", "REJECT", "STRUCTWALK"},
+		Explanation: "wip"}
 	props["C17"] = &PropSpec{ID: "C17", Engines: []string{"ERRPRED"}, Rules: []string{"ERRPRED", "RESULTLIT", "LEN"},
 		Explanation: "wip"}
 	props["C18"] = &PropSpec{ID: "C18", Engines: []string{"HEAP"}, Rules: []string{"HEAP"},
